@@ -160,19 +160,34 @@ def targets_from_dag(nt, dep, names=None, rng=None):
     """Targets 1..nt with dependency pairs [t, u] (t depends on u), realised through `uses`
     (alternating between naming the target directory and a file inside it)."""
     names = names or NAMES
+    rng = rng or random.Random(nt * 7919 + len(dep))
     paths = {i: names[(i - 1) % len(names)] + ("" if i <= len(names) else str(i)) for i in range(1, nt + 1)}
+    # some dependencies are realised through NESTING instead of `uses`: v may live inside u when v depends on u and
+    # everything that depends on v also depends on u (a path inside v lies inside u too); one level deep
+    depset = set((t, u) for (t, u) in dep)
+    nested, parents = {}, set()
+    cands = [(v, u) for (v, u) in sorted(depset) if all((t, u) in depset for (t, w) in depset if w == v)]
+    rng.shuffle(cands)
+    for (v, u) in cands:
+        if rng.random() < 0.5 and v not in nested and v not in parents and u not in nested:
+            nested[v] = u
+            parents.add(u)
+    for v, u in nested.items():
+        paths[v] = paths[u] + "/" + paths[v].replace("/", "_")
     ts = []
     for i in range(1, nt + 1):
         uses = []
         for (t, u) in dep:
-            if t == i:
+            if t == i and nested.get(t) != u:
+                if (t, nested.get(u)) in depset and (t + u) % 3 == 0:
+                    continue        # the entry naming the nested target u brings its enclosing target along
                 uses.append(paths[u] if (t + u) % 2 == 0 else paths[u] + "/src.txt")
         t = {"path": paths[i]}
         if uses:
             t["uses"] = uses
         ts.append(t)
     # declaration order is not dependency order: dependencies may be declared after their dependents
-    (rng or random.Random(nt * 7919 + len(dep))).shuffle(ts)
+    rng.shuffle(ts)
     return ts, paths
 
 
@@ -258,8 +273,8 @@ def random_scenario(seed, nt_range=(5, 12), fail_prob=0.35, slow_deps=True):
     dep = [(t, u) for t in range(2, nt + 1) for u in range(1, t) if rng.random() < dens]
     ts, paths = targets_from_dag(nt, dep, rng=rng)
     # nest one target inside another sometimes (nesting is a dependency too)
-    ncmd = rng.choice([1, 1, 2, 3])
-    cmds = ["build", "test", "lint"][:ncmd]
+    ncmd = rng.choice([1, 1, 2, 3, 4])
+    cmds = ["build", "test", "lint", "check"][:ncmd]
     use_seq = ncmd >= 2 and rng.random() < 0.5
     kinds, scripts = {}, {}
     depth = {}
@@ -296,7 +311,11 @@ def random_scenario(seed, nt_range=(5, 12), fail_prob=0.35, slow_deps=True):
             scripts[key] = steps
     sc = {"targets": ts, "commands": cmds, "kinds": kinds, "fou": fou, "scripts": scripts,
           "label": "random-%d" % seed}
-    if use_seq:
+    if use_seq and ncmd >= 3:
+        # two sequences, given in an order that is not the alphabetical order of their names, then --commands
+        sc["sequences_cfg"] = {"zz-first": cmds[:1], "aa-second": cmds[1:ncmd - 1], "mm-unused": ["never"]}
+        sc["cli"] = {"sequences": ["zz-first", "aa-second"], "commands": cmds[ncmd - 1:]}
+    elif use_seq:
         sc["sequences_cfg"] = {"s1": cmds[:ncmd - 1]}
         sc["cli"] = {"sequences": ["s1"], "commands": cmds[ncmd - 1:]}
     m = rng.random()
